@@ -119,6 +119,9 @@ reporter(int is_error, const char* file, int line, const char* function, const c
 // ---- caller thread: get_frame loop --------------------------------------------------------------------
 static volatile int run_no = 0, running = 0, finished = 0;
 static long frames_got = 0;
+static uint8_t* prev_img; // the image the previous data-bearing frame call of this run delivered (random camera only)
+static long prev_len = -1;
+static int prev_run = -1;
 static volatile int paused = 0;
 static int run_obj;
 
@@ -129,6 +132,7 @@ caller(void* arg)
     int me = vs_self();
     // (large enough for every shape a `setshape` op may configure; filled with a position-dependent sentinel before each call)
     uint8_t* buf = (uint8_t*)malloc(BUF_CAP + 64);
+    prev_img = (uint8_t*)malloc(BUF_CAP + 64);
     int seen_run = 0;
     for (;;) {
         while (!finished && (run_no == seen_run || !running))
@@ -171,8 +175,17 @@ caller(void* arg)
                     filled = !same;
                 }
             }
-            snprintf(b, sizeof b, "{\"e\":\"GetFrameRet\",\"rc\":%d,\"nbytes\":%ld,\"hw\":%ld,\"t\":%d,\"exp\":%ld,\"past\":%s,\"filled\":%s,\"gen\":%ld}", rc,
-                     (long)nb, hw, me, expb, past ? "true" : "false", filled ? "true" : "false", streamer_rel);
+            // "never the same frame twice": the random camera draws every image afresh, so two frame calls of one run that
+            // deliver the same >= 16 bytes delivered the same image (dup); other kinds repeat their content legitimately
+            int dup = 0;
+            if (rc == 0 && nb > 0 && kind == 0 && expb >= 16 && (size_t)expb <= BUF_CAP) {
+                dup = prev_run == run_no && prev_len == expb && !memcmp(prev_img, buf, (size_t)expb);
+                memcpy(prev_img, buf, (size_t)expb);
+                prev_len = expb;
+                prev_run = run_no;
+            }
+            snprintf(b, sizeof b, "{\"e\":\"GetFrameRet\",\"rc\":%d,\"nbytes\":%ld,\"hw\":%ld,\"t\":%d,\"exp\":%ld,\"past\":%s,\"filled\":%s,\"gen\":%ld,\"dup\":%s}", rc,
+                     (long)nb, hw, me, expb, past ? "true" : "false", filled ? "true" : "false", streamer_rel, dup ? "true" : "false");
             emit(cur_seq[me], b);
             if (rc == 0 && nb > 0)
                 frames_got++;
